@@ -120,6 +120,8 @@ def evaluate(ctx, cases):
                 break
             if k == 0 and "ok" in r:
                 first = r["ok"]
+        if len(results) < 3:
+            continue
         if not (results[0] == results[1] == results[2]):
             ctx.violation("applying the same patch repeatedly to equal documents must give equal results", inp, results, "all equal")
         if results[0] != m["result"]:
